@@ -42,6 +42,7 @@ struct DocSpec {
 struct Record {
     payee: &'static str,
     category: &'static str,
+    secondary: &'static str,
     amount_cents: i64,
 }
 
@@ -68,6 +69,10 @@ const PAYEE_PATTERNS: &[&str] = &[
     " Shop$",
 ];
 const CATEGORY_PATTERNS: &[&str] = &["Travel|Cash", "^Groceries$", "income", "Misc"];
+/// `secondary_commodity` patterns (this matcher sorts after `payee`, so in one AND-map the payee
+/// matcher, captures included, is evaluated before it)
+const SECONDARY_PATTERNS: &[&str] = &["EUR", "^JPY$", "USD|EUR", "^$", "."];
+const RECORD_SECONDARY: &[&str] = &["", "", "EUR", "JPY", "USD"];
 const ACCOUNTS: &[&str] = &["Expenses:Grocery", "Expenses:Travel", "Income:Salary", "Assets:Cash", "Expenses:Misc", "Assets:Wire"];
 const RECORD_PAYEES: &[&str] = &["Debit Card 31415 Coop", "debit card 999 MIGROS Zürich", "SBB CFF FFS", "Salary October", "ATM 五反田", "Unknown Shop", "Coop", "Migros", "Transfer 0042", "sbb ticket", "ATMOS Energy", "Workshop"];
 const RECORD_CATEGORIES: &[&str] = &["Groceries", "Travel", "Income", "Cash", "Misc", ""];
@@ -77,9 +82,10 @@ fn gen_rule(rng: &mut Rng) -> RuleSpec {
     let mut matcher = Vec::new();
     for _ in 0..n_or {
         let mut and = vec![FieldPat { field: "payee", pattern: rng.pick_str(PAYEE_PATTERNS) }];
-        match rng.below(5) {
+        match rng.below(6) {
             0 => and = vec![FieldPat { field: "category", pattern: rng.pick_str(CATEGORY_PATTERNS) }],
             1 | 2 => and.push(FieldPat { field: "category", pattern: rng.pick_str(CATEGORY_PATTERNS) }),
+            3 => and.push(FieldPat { field: "secondary_commodity", pattern: rng.pick_str(SECONDARY_PATTERNS) }),
             _ => {}
         }
         matcher.push(and);
@@ -140,7 +146,7 @@ fn doc_yaml(d: &DocSpec) -> String {
         y.push_str(&format!("operator: {}\n", yaml_str(o)));
     }
     if let Some(f) = d.date_format {
-        y.push_str(&format!("format:\n  date: {}\n  fields:\n    date: 1\n    amount: 2\n    payee: 3\n    category: 4\n", yaml_str(f)));
+        y.push_str(&format!("format:\n  date: {}\n  fields:\n    date: 1\n    amount: 2\n    payee: 3\n    category: 4\n    secondary_commodity: 5\n", yaml_str(f)));
     }
     if !d.rules.is_empty() {
         y.push_str("rewrite:\n");
@@ -233,6 +239,12 @@ fn fold(rules: &[RuleSpec], rec: &Record) -> Folded {
                         }
                         None => continue 'or,
                     },
+                    "secondary_commodity" => {
+                        // (an empty cell is matched like any other text, as for the category)
+                        if !re.is_match(rec.secondary) {
+                            continue 'or;
+                        }
+                    }
                     _ => {
                         if !re.is_match(rec.category) {
                             continue 'or;
@@ -278,7 +290,7 @@ impl Check for C17 {
         let src: PathBuf = dir.join(file_rel);
         // documents: a complete base document plus 0-4 partial ones
         // the last four do not occur in the file path although they would without their final slash
-        let path_pool = ["bank/checking/", "checking", "2021/", "stmt.csv", "other/", "k/ch", "bank/", "/2021/stmt", "ing/2", "ban/", "check/", "202/", "stmt/"];
+        let path_pool = ["", "bank/checking/", "checking", "2021/", "stmt.csv", "other/", "k/ch", "bank/", "/2021/stmt", "ing/2", "ban/", "check/", "202/", "stmt/"];
         let mut docs = vec![DocSpec {
             path: "bank/".to_string(),
             account: Some("Assets:Base Bank"),
@@ -312,15 +324,15 @@ impl Check for C17 {
         // records
         let n = 1 + rng.usize(6);
         let records: Vec<Record> = (0..n)
-            .map(|_| Record { payee: rng.pick_str(RECORD_PAYEES), category: rng.pick_str(RECORD_CATEGORIES), amount_cents: if rng.chance(1, 2) { rng.range(1, 90000) } else { -rng.range(1, 90000) } })
+            .map(|_| Record { payee: rng.pick_str(RECORD_PAYEES), category: rng.pick_str(RECORD_CATEGORIES), secondary: rng.pick_str(RECORD_SECONDARY), amount_cents: if rng.chance(1, 2) { rng.range(1, 90000) } else { -rng.range(1, 90000) } })
             .collect();
         let day = chrono::NaiveDate::from_ymd_opt(2021, 9, 1).unwrap();
-        let mut csv = String::from("date,amount,payee,category\n");
+        let mut csv = String::from("date,amount,payee,category,foreign\n");
         for (k, r) in records.iter().enumerate() {
             let d = day + chrono::Duration::days(k as i64);
             // amount column: negated for liability accounts, so that the account movement is amount_cents
             let shown = if m.account_type == "liability" { -r.amount_cents } else { r.amount_cents };
-            csv.push_str(&format!("{},{}.{:02},{},{}\n", d.format(m.date_format), if shown < 0 { format!("-{}", shown.abs() / 100) } else { format!("{}", shown / 100) }, shown.abs() % 100, csv_cell(r.payee), csv_cell(r.category)));
+            csv.push_str(&format!("{},{}.{:02},{},{},{}\n", d.format(m.date_format), if shown < 0 { format!("-{}", shown.abs() / 100) } else { format!("{}", shown / 100) }, shown.abs() % 100, csv_cell(r.payee), csv_cell(r.category), r.secondary));
         }
         if std::fs::create_dir_all(src.parent().unwrap()).is_err() {
             rec.skip();
@@ -428,7 +440,7 @@ impl Check for C17 {
     }
     fn rule(&self) -> String {
         "Each case: 1-5 YAML configuration documents in random order - one complete base document (`bank/`) and partial ones whose `path` is a substring of the \
-         file path (`bank/checking/`, `checking`, `2021/`, `stmt.csv`, `k/ch`, `/2021/stmt`, `ing/2`, with equal-length paths occurring) or not occurring in it (`other/`, and `ban/`, `check/`, `202/`, `stmt/`, which would occur without their final slash), each \
+         file path (the empty string, `bank/checking/`, `checking`, `2021/`, `stmt.csv`, `k/ch`, `/2021/stmt`, `ing/2`, with equal-length paths occurring) or not occurring in it (`other/`, and `ban/`, `check/`, `202/`, `stmt/`, which would occur without their final slash), each \
          overriding a random subset of account, account_type, commodity, operator, encoding, format (date format) and carrying 0-3 rewrite rules. Rules draw regexes \
          from a pool (capture groups payee / code, case variations, anchors, Unicode) on payee and category, as single maps, AND-maps or OR-lists of AND-maps (at most \
          one capturing matcher per map), with account / payee / pending in all combinations; rules that only fire on a payee rewritten by an earlier rule are in the \
